@@ -371,6 +371,8 @@ class ClaferDoc:
             k = sum(1 for c in kids if c["name"] in sel)
             if not on and k:
                 return False
+            if on and n["abstract"] and n is not self.root:
+                return False              # a nested abstract clafer is a type, not a part: it has no instance
             if n["group"] and on:
                 g = n["group"]
                 lo, hi = {"xor": (1, 1), "or": (1, len(kids)), "mux": (0, 1)}.get(g, (None, None))
